@@ -432,6 +432,10 @@ pub fn run(config: Config, receiver: Receiver<ActorMessage>) {
                         ActorMessage::ToBootstrap(sender) => {
                             let _ = sender.send(actor.to_bootstrap());
                         }
+                        #[cfg(mainline_verif)]
+                        ActorMessage::VerifSnapshot(sender) => {
+                            let _ = sender.send(actor.verif_snapshot());
+                        }
                     },
                     Err(TryRecvError::Disconnected) => {
                         // Node was dropped, kill this thread.
@@ -483,6 +487,8 @@ pub(crate) enum ActorMessage {
     Get(GetRequestSpecific, ResponseSender),
     Check(Sender<Result<(), std::io::Error>>),
     ToBootstrap(Sender<Vec<String>>),
+    #[cfg(mainline_verif)]
+    VerifSnapshot(Sender<crate::verif::Snapshot>),
 }
 
 #[derive(Debug, Clone)]
@@ -492,4 +498,84 @@ pub enum ResponseSender {
     SignedPeers(Sender<Vec<SignedAnnounce>>),
     Mutable(Sender<MutableItem>),
     Immutable(Sender<Box<[u8]>>),
+}
+
+#[cfg(mainline_verif)]
+impl Actor {
+    /// Verification hook: projection of the whole actor state between ticks.
+    pub fn verif_snapshot(&self) -> crate::verif::Snapshot {
+        fn sizes<T>(m: &HashMap<Id, Vec<T>>) -> Vec<(String, usize)> {
+            let mut v: Vec<_> = m.iter().map(|(k, v)| (k.to_string(), v.len())).collect();
+            v.sort();
+            v
+        }
+        let mut queries: Vec<_> = self
+            .core
+            .iterative_queries
+            .values()
+            .map(|q| q.verif_snapshot(&self.socket))
+            .collect();
+        queries.sort_by(|a, b| a.target.cmp(&b.target));
+        let mut puts: Vec<_> = self
+            .core
+            .put_queries
+            .values()
+            .map(|q| q.verif_snapshot())
+            .collect();
+        puts.sort_by(|a, b| a.target.cmp(&b.target));
+        crate::verif::Snapshot {
+            now_ns: crate::verif::now_ns(),
+            id: self.id().to_string(),
+            local_port: self.socket.local_addr().port(),
+            server_mode: self.core.server_mode,
+            socket_server_mode: self.socket.server_mode,
+            firewalled: self.core.firewalled,
+            public_address: self.core.public_address.map(|a| a.to_string()),
+            bootstrap: self.core.bootstrap.iter().map(|a| a.to_string()).collect(),
+            queries,
+            puts,
+            put_senders: sizes(&self.put_senders),
+            get_senders: sizes(&self.get_senders),
+            inflight: self.socket.verif_snapshot(),
+            cache: self.core.verif_cache(),
+            routing_table: self.core.routing_table.verif_snapshot(),
+            signed_peers_routing_table: self.core.signed_peers_routing_table.verif_snapshot(),
+            server: self.core.server.verif_snapshot(),
+            last_table_refresh_age_ns: self.core.last_table_refresh.elapsed().as_nanos() as u64,
+            last_table_ping_age_ns: self.core.last_table_ping.elapsed().as_nanos() as u64,
+        }
+    }
+
+    /// Verification hook for actors owned by an external scheduler ("inline" nodes):
+    /// the API-message half of one iteration of [run], for `Put`.
+    pub fn verif_api_put(
+        &mut self,
+        request: PutRequestSpecific,
+        sender: Sender<Result<Id, PutError>>,
+        extra_nodes: Option<Box<[Node]>>,
+    ) {
+        // Mirrors the `ActorMessage::Put` arm of [run].
+        let target = *request.target();
+        match self.put(request, extra_nodes) {
+            Ok(()) => {
+                let senders = self.put_senders.entry(target).or_insert(vec![]);
+                senders.push(sender);
+            }
+            Err(error) => {
+                let _ = sender.send(Err(error));
+            }
+        };
+    }
+
+    /// Same as [Self::verif_api_put] for `Get`.
+    pub fn verif_api_get(&mut self, request: GetRequestSpecific, sender: ResponseSender) {
+        // Mirrors the `ActorMessage::Get` arm of [run].
+        let target = request.target();
+        let responses = self.get(request, None);
+        for response in responses {
+            send(&sender, response);
+        }
+        let senders = self.get_senders.entry(target).or_insert(vec![]);
+        senders.push(sender);
+    }
 }
